@@ -40,6 +40,13 @@ def ref_samples(seed, n):
     return ys, Ys
 
 
+def chain_seed(seed, sname):
+    """16-byte seeds, plus seeds longer than a hash block input of 32 bytes that share their first 32 bytes"""
+    if sname.startswith('L'):
+        return env.sym(seed, 'c18.seed.long', 32) + {'L33a': b'a', 'L33b': b'b', 'L64': env.sym(seed, 'c18.seed.tail', 32)}[sname]
+    return env.sym(seed, 'c18.seed.' + sname, 16)
+
+
 def party_keys(seed, n, tag='p'):
     sk = [env.sym(seed, 'c18.%s%d' % (tag, i)) for i in range(n)]
     return sk, [refed.public_key(s) for s in sk]
@@ -48,14 +55,22 @@ def party_keys(seed, n, tag='p'):
 def setup_case(ctx, case):
     sname, n = case
     seed = ctx.seed
-    aseed = env.sym(seed, 'c18.seed.' + sname, 16)
+    aseed = chain_seed(seed, sname)
     A = amhl()
     sk, pk = party_keys(seed, n)
     ys, Ys = ref_samples(aseed, n)
+    # call history inside the case (so that it replays): the same seed was used for a longer and for a shorter chain
+    # before; nothing of those calls may be remembered
+    sk_l, pk_l = party_keys(seed, n + 2, 'h')
+    T.setup_amhl(aseed, list(pk_l))
+    A.setup(n + 3, aseed)
+    T.setup_amhl(aseed, list(pk_l[:max(n - 1, 1)]))
     res = T.setup_amhl(aseed, list(pk))
-    ctx.ran()
+    ctx.ran(3)
     cnt = 0
     raw = A.setup(n, aseed)
+    if len(raw) != 2 or len(raw[0]) != n or len(raw[1]) != n:
+        ctx.violation({'clause': 'setup returns one secret and one point per party'}, f'seed {sname} n={n}: {[len(x) for x in raw]}')
     for i in range(n):
         cnt += 1
         ctx.state(('setup', sname, n, i))
@@ -118,7 +133,7 @@ def release_case(ctx, case):
     sname, n, refunds, flags = case
     seed = ctx.seed
     env.Clock.now = 1_700_000_000
-    aseed = env.sym(seed, 'c18.seed.' + sname, 16)
+    aseed = chain_seed(seed, sname)
     sk, pk = party_keys(seed, n)
     rsk, rpk = party_keys(seed, n, 'r')
     ys, Ys = ref_samples(aseed, n)
@@ -220,7 +235,7 @@ def blocks(tier, seed):
     q = tier == 'quick'
     nmax = 8 if q else 13
     seeds_ = ('s0', 's1', 's2') if q else ('s0', 's1', 's2', 's3', 's4')
-    sc = [(s, n) for s in seeds_ for n in range(2, nmax + 1)]
+    sc = [(s, n) for s in seeds_ for n in range(2, nmax + 1)] + [(s, n) for s in ('L33a', 'L33b', 'L64') for n in (2, 3, 5)]
     rc = [(s, n, r, f) for s in seeds_ for n in range(2, nmax + 1) for r in (False, True)
           for f in ('00', '01')]
     rc += [('s0', n, r, f) for n in (2, 3) for r in (False, True) for f in ('02', '08', '20', '40', '80', 'a5', 'fe')]
